@@ -15,6 +15,8 @@ MCAspa == {<<"a1", "prov:a2">>, <<"a1", "prov:a2+a3">>}
 MCRoaAspa == MCRoa1 \cup MCAspa
 Chain == [c \in Sub |-> IF c = "B" THEN "A" ELSE "B"]
 Flat == [c \in Sub |-> "A"]
+\* B under A; F (a child that is not hosted here) and C under B
+ForeignUnderB == [c \in Sub |-> IF c = "B" THEN "A" ELSE "B"]
 \* B under A, C under B, and C's second parent (slot C2) is A itself
 Multi == [c \in Sub |-> IF c = "B" THEN "A" ELSE IF c = "C" THEN "B" ELSE "A"]
 
